@@ -20,7 +20,7 @@ from .algebra import rat, angle_of, result_kind
 
 mpf = mpmath.mpf
 SKIP_OPS = {"abs", "square", "np_sqrt", "np_cbrt", "np_power", "neg", "divide", "scale2D", "scale3D", "neg2D", "neg3D",
-            "transform2D_partial", "transform3D_partial"}     # operator / ufunc forms: C05, C11
+            "transform2D_partial", "transform3D_partial", "equal", "not_equal", "isclose"}     # operator / ufunc forms: C05, C11
 
 
 def hsh(*parts):
